@@ -4,6 +4,14 @@ import json, os
 HERE = os.path.dirname(os.path.dirname(os.path.abspath(__file__)))
 TLA = "TLA+ spec checked by TLC + trace validation of the real code against it"
 CHECKS = {
+ "C02": dict(level="model_checking", design="5 C02",
+   text="Wire.tla is a character-level TLA+ specification of the codec (rstrip, split, int(), canonical rendering, copy). "
+        "TLC checks the three codec laws of the property on it over a bounded case analysis (1..8 fields, varied field "
+        "spellings, trailers, 2^6 copy subsets). The same case analysis plus random strings is concretised to real characters, "
+        "run through Message decode/encode/copy, and each observed result is validated by TLC against the Wire.tla operators.",
+   note="Trusts TLC and the summary of Python's int()/str.rstrip lexical rules in Wire.tla (symbol classes; each class is "
+        "represented by 4-17 concrete characters, not all of Unicode). Header integers < 2^31.",
+   technique="TLC model checking of Wire.tla laws + TLC validation of recorded decode/encode/copy executions (WireTrace.tla)"),
  "C03": dict(level="model_checking", design="5 C03",
    text="Valid.tla (hand-written per-version tables, header rules, payload rule semantics) is model-checked by TLC "
         "(table theorems, 307k header states, hand-labelled corpus self-test); every verdict of the implementation on the "
